@@ -199,8 +199,14 @@ func crashJob(raw json.RawMessage) (interface{}, error) {
 					return
 				}
 				// which prefix?
+				// the latest prefix state that matches among the operations invoked before the (latest) cut
+				// at which this image is possible - later operations never happened on this disk
 				k := -1
-				for i := len(mdumps) - 1; i >= 0; i-- {
+				top := len(mdumps) - 1
+				if lastInv < top {
+					top = lastInv
+				}
+				for i := top; i >= 0; i-- {
 					if reffs.DiffDumps(dump, mdumps[i], true) == "" {
 						k = i
 						break
